@@ -1,6 +1,7 @@
 package vmodel
 
 import (
+	"strings"
 	"context"
 	"database/sql"
 	"fmt"
@@ -17,7 +18,9 @@ import (
 type Inspector struct{ db *sql.DB }
 
 func OpenInspector(envDir string) (*Inspector, error) {
-	db, err := sql.Open("sqlite3", "file:"+filepath.Join(envDir, "pithos.db")+"?mode=ro&_busy_timeout=5000")
+	// SQLite URI filenames: '%', '#' and '?' of the path have to be percent-encoded
+	uriPath := strings.NewReplacer("%", "%25", "#", "%23", "?", "%3f").Replace(filepath.Join(envDir, "pithos.db"))
+	db, err := sql.Open("sqlite3", "file:"+uriPath+"?mode=ro&_busy_timeout=5000")
 	if err != nil {
 		return nil, err
 	}
